@@ -47,11 +47,19 @@ class Deadlock(Exception):
     pass
 
 
+class Stop(Exception):
+    pass
+
+
 class VSelector(selectors.DefaultSelector):
     """never sleeps: advances the loop's virtual clock instead"""
     loop = None
+    turns = 0
 
     def select(self, timeout=None):
+        self.turns += 1
+        if self.turns > 200000:
+            raise Stop()                # a run that never settles is an outcome ("runaway"), not a hang
         ev = super().select(0)
         if ev:
             return ev
@@ -92,10 +100,6 @@ class VLoop(asyncio.SelectorEventLoop):
         return super().remove_reader(fd)
 
 
-class Stop(Exception):
-    pass
-
-
 def model_terms(spec):
     """what the sync group should know about each terminal, from the harness' own reading of the rules:
     IN mapping iff FMMUs are used and there is input process data, OUT mapping additionally needs rw"""
@@ -130,6 +134,7 @@ class Env:
             if self.k is None and self.recvs > self.case["cycles"]:
                 # the uncancelled run is observed up to here: still running
                 self.snapshot = (list(self.trace), "pending", self.npoints)
+                self.task.cancel()      # tear-down only: nothing after the snapshot is observed
                 return
         self.trace.append(label)
         i = self.npoints
@@ -186,12 +191,15 @@ class Env:
                 back = bytearray(packet)
                 for p, c in env.sg.packet.counters.items():
                     struct.pack_into("<H", back, p, c)
-                env.loop.call_soon(lambda: fut.done() or fut.set_result(bytes(back)))
+                fut.back = bytes(back)
                 return fut
 
         class PFuture(asyncio.Future):
+            """the frame comes back once the group waits for it, so that every wait is a real suspension
+            (a reply that is already there makes `await` a no-op and moves the cancellation to the next await)"""
             def __await__(self):
                 env.point("recv")
+                env.loop.call_soon(lambda: self.done() or self.set_result(self.back))
                 return super().__await__()
             __iter__ = __await__
 
